@@ -6,6 +6,9 @@ COMMON_ASSUME = [
     "core translation units compiled from the working tree without -DLLTD_TESTING; lltdBlock.c is textually included by port/core_block_tu.c to append a reset accessor",
 ]
 PROPS = {
+    "C01": dict(sources=["c01.cpp"], flavours=["asan"], shards={"quick": 8, "thorough": 16}, level="exploration",
+                technique="structure-aware generated frame sequences (rapidcheck quick tier, libFuzzer coverage-guided thorough tier) through all three receive entry points on MTU-sized heap buffers under AddressSanitizer+UBSan, plus allocation-ledger oracle",
+                assumptions=COMMON_ASSUME),
     "C03": dict(sources=["c03.cpp"], flavours=["asan"], shards={"quick": 4, "thorough": 16}, level="exploration",
                 technique="rapidcheck-generated frame histories; independent byte-level decoder as oracle; C05 reference model decides which Discovers must be accepted",
                 assumptions=COMMON_ASSUME),
